@@ -96,7 +96,7 @@ def run(ctx: Ctx):
     rules.rule_enter_sites(ctx, KINDS, "D2")
     rules.rule_transition(ctx, "D2")
     ops = {"assign_dispatched_vehicle", "unassign_dispatched_vehicle", "modify_vehicle_assignment", "modify_request"}
-    ctx.attempt(rules.rule_state_lineage, ctx, "D2", rules.step_path_funcs(repo), "DU.state-lineage", lambda fn, c: rules.may_reach(repo, fn, c, ops))
+    ctx.attempt(rules.rule_state_lineage, ctx, "D2", rules.step_path_funcs(repo), "DU.state-lineage", lambda fn, c: rules.may_reach(repo, fn, c, ops), True)
     # a transition that reports success without writing the new activity leaves the vehicle in the old one after its exit
     # already cleared the record: the request is offered again while the vehicle is still travelling to it
     assign_holders = {sc.name for sc in states.state_classes(repo) if rules.released_kinds(sc, {"assign"})}
